@@ -77,7 +77,9 @@ def one(ctx, data, meta, rng, tmpdir, html, pairs=None, nrewrites=None):
     ctx.evaluations += 1; good = True
     pairs = pairs or pick_pairs(rng, data)
     cps = [p for t, p in src.content_parts(data) if t != 'comments']
-    vd, applied = variant(rng, data, cps, rng.randint(2, 10) if nrewrites is None else nrewrites)
+    from gen.split import split_text_inside
+    first = [('cut-inside-needle', split_text_inside(o)) for o, _ in pairs if len(o) >= 2 and rng.random() < 0.6] if nrewrites is None else []
+    vd, applied = variant(rng, data, cps, rng.randint(2, 10) if nrewrites is None else nrewrites, first=first)
     case = case_payload(vd, html=html, pairs=pairs, original_b64=case_payload(data)['archive_b64'], rewrites=applied)
     fin = os.path.join(tmpdir, 'in.docx'); fout = os.path.join(tmpdir, 'out.docx')
     open(fin, 'wb').write(vd)
